@@ -318,7 +318,13 @@ func (s Segment) Backup(targetDir string) error {
 		return fmt.Errorf("backup index rel: %w", err)
 	}
 	targetIndex := filepath.Join(targetDir, indexName)
-	if err := copyFile(s.Index, targetIndex); err != nil {
+	switch err := copyFile(s.Index, targetIndex); {
+	case errors.Is(err, os.ErrNotExist):
+		// the index is rebuilt from the log on demand, make sure the backup does not keep a stale one
+		if err := os.Remove(targetIndex); err != nil && !errors.Is(err, os.ErrNotExist) {
+			return fmt.Errorf("backup index remove: %w", err)
+		}
+	case err != nil:
 		return fmt.Errorf("backup index copy: %w", err)
 	}
 
